@@ -5,6 +5,8 @@
 //! assembler + debugger (`dbg::run_session`) and, by the model driver, on the Lean assembler model +
 //! debugger model (`E15` / `V17` requests); the driver's SPEC answer uses the abstract program's
 //! own origin / statement texts / label table / `.break` positions and `Spec.execAbs` for `eval`.
+//! `B17` requests (C17, breakpoint table): the same kind of session in the NORMAL output mode; the
+//! observable is what `break list` printed (`c17_table_session`, `run_table`, `dbg::break_tables`).
 use crate::asmgen::{self, Item, Operand, Prog, Rendered, Style};
 use crate::cap::Capture;
 use crate::dbg::{run_src, Cmd, Loc, SrcCase};
